@@ -559,6 +559,10 @@ fn parse_date(s: &str) -> Option<(i64, u32, u32)> {
     let year: i64 = parts[0].parse().ok()?;
     let month: u32 = parts[1].parse().ok()?;
     let day: u32 = parts[2].parse().ok()?;
+    // callers index month tables and do day arithmetic with these
+    if !(1..=12).contains(&month) || !(1..=31).contains(&day) {
+        return None;
+    }
     Some((year, month, day))
 }
 
